@@ -318,4 +318,40 @@ def specTextPage (p : Page) : Str := specTextL p.kids ++ ['\x0c']
 
 def specText (ps : List Page) : Str := ps.flatMap specTextPage
 
+/-- the page header a converter constructed with `showpageno` puts before the text of a page -/
+def specPageHeader (showpageno : Bool) (p : Page) : Str :=
+  if showpageno then ['P', 'a', 'g', 'e', ' '] ++ p.pageid ++ ['\n'] else []
+
+/-- plain text demanded for every `showpageno` choice: per page the optional header, the in-order text, a form feed -/
+def specTextPn (showpageno : Bool) (ps : List Page) : Str :=
+  ps.flatMap (fun p => specPageHeader showpageno p ++ specTextPage p)
+
+/-! ### raw glyph mode (`laparams=None`): no layout analysis, hence no text boxes -/
+
+mutual
+/-- no `LTTextBox` anywhere below (what `laparams=None` produces: glyphs directly under pages / figures) -/
+def noBox : Item → Bool
+  | .textbox _ _ _ _ => false
+  | .figure _ _ kids => noBoxL kids
+  | .textline _ kids => noBoxL kids
+  | _ => true
+def noBoxL : List Item → Bool
+  | [] => true
+  | i :: is => noBox i && noBoxL is
+end
+
+mutual
+/-- the glyph (and LTAnno) texts in order, nothing else -/
+def glyphText : Item → Str
+  | .char _ _ _ _ _ text => text
+  | .anno text => text
+  | .figure _ _ kids => glyphTextL kids
+  | .textline _ kids => glyphTextL kids
+  | .textbox _ _ _ kids => glyphTextL kids
+  | _ => []
+def glyphTextL : List Item → Str
+  | [] => []
+  | i :: is => glyphText i ++ glyphTextL is
+end
+
 end PdfVerif.Xml
